@@ -298,6 +298,10 @@ func (w *World) checkMayBeNil(r *Report, rule string, nf nilField, roots []*ssa.
 					continue
 				}
 				args := x.Common().Args
+				// a call behind a non-nil test of the value hands a non-nil argument on (`if acc != nil && same(acc, other)`)
+				if MustPass(x.Parent(), nonNilEdgesOf(x.Parent(), v), x.Block()) {
+					continue
+				}
 				for _, c := range site.Callees {
 					off := 0
 					if x.Common().IsInvoke() {
